@@ -1,20 +1,351 @@
 package mempool
 
 import (
+	"bytes"
+	"fmt"
+	"strings"
+	"sync"
+	"time"
+
+	"github.com/btcsuite/btcd/blockchain"
+	"github.com/btcsuite/btcd/btcutil/v2"
+	"github.com/btcsuite/btcd/chainhash/v2"
+	"github.com/btcsuite/btcd/mining"
+	"github.com/btcsuite/btcd/wire/v2"
+
+	"verif/harness/internal/tla"
 	"verif/harness/internal/tlc"
 	"verif/harness/internal/vrun"
 )
 
-// TemplateChecker (C12) — filled in below.
-type TemplateChecker struct {
-	ctx *vrun.Ctx
-	m   *Model
+// MiningPolicy is one mining.Policy of the grid, also rendered into Mining.tla.
+type MiningPolicy struct {
+	MaxW, MinW, Prio uint32
+	MinFree          int64
 }
 
-func NewTemplateChecker(ctx *vrun.Ctx, m *Model) *TemplateChecker { return &TemplateChecker{ctx: ctx, m: m} }
+func (p MiningPolicy) real() *mining.Policy {
+	return &mining.Policy{BlockMinWeight: p.MinW, BlockMaxWeight: p.MaxW, BlockMinSize: p.MinW / 4, BlockMaxSize: p.MaxW / 4,
+		BlockPrioritySize: p.Prio, TxMinFreeFee: btcutil.Amount(p.MinFree)}
+}
 
-func (tc *TemplateChecker) OnState(e *Env, n *tlc.Node, s *SpecState) error { return nil }
-func (tc *TemplateChecker) Finish() error                                   { return nil }
+const headerWeight = (80 + 9) * 4
+
+// commitWeight is what NewBlockTemplate adds for the witness commitment.
+func commitWeight() int {
+	return (2 + 1 + 1 + blockchain.CoinbaseWitnessDataLen) + (8+1+blockchain.CoinbaseWitnessPkScriptLength)*blockchain.WitnessScaleFactor
+}
+
+// MiningSetup measures the generated coinbase and fixes the policy grid of a universe.
+type MiningSetup struct {
+	CbWeight int
+	Subsidy  int64
+	Policies []MiningPolicy
+}
+
+func NewMiningSetup(c *Concrete) (*MiningSetup, error) {
+	e, err := NewEnv(c, true)
+	if err != nil {
+		return nil, err
+	}
+	defer e.Close()
+	g := e.NewGenerator(MiningPolicy{MaxW: 3000000}.real())
+	t, err := g.NewBlockTemplate(nil)
+	if err != nil {
+		return nil, fmt.Errorf("template on an empty pool: %w", err)
+	}
+	cbw := int(blockchain.GetTransactionWeight(btcutil.NewTx(t.Block.Transactions[0])))
+	base := uint32(headerWeight + cbw + commitWeight())
+	return &MiningSetup{CbWeight: cbw, Subsidy: blockchain.CalcBlockSubsidy(c.H0+1, c.Params),
+		Policies: []MiningPolicy{
+			{MaxW: 3000000, MinW: 0, Prio: 0, MinFree: 1000},          // btcd-like defaults without a priority area
+			{MaxW: base + 900, MinW: 0, Prio: 0, MinFree: 0},         // room for about two small transactions
+			{MaxW: 4000000, MinW: base + 450, Prio: 200000, MinFree: 12000}, // priority area, min weight filled with low-fee transactions
+		}}, nil
+}
+
+func (ms *MiningSetup) cfg(c *Concrete) (defs, cfg string) {
+	var ps []string
+	for _, p := range ms.Policies {
+		ps = append(ps, fmt.Sprintf("[maxw |-> %d, minw |-> %d, prio |-> %d, minfree |-> %d]", p.MaxW, p.MinW, p.Prio, p.MinFree))
+	}
+	defs = fmt.Sprintf("U_Policies == << %s >>\n", strings.Join(ps, ", "))
+	cfg = fmt.Sprintf(" TxWeight <- U_TxWeight\n TxSigCost <- U_TxSigCost\n Policies <- U_Policies\n H0 = %d\n CbWeight = %d\n CommitWeight = %d\n",
+		c.H0, ms.CbWeight, commitWeight())
+	return
+}
+
+// tmplRecord is one observed template together with the spec state it was taken in.
+type tmplRecord struct {
+	node *tlc.Node
+	pol  int
+	tla  string
+	desc map[string]any
+}
+
+// TemplateChecker generates templates at every spec state reached by a replay
+// and validates the records against Mining.tla.
+type TemplateChecker struct {
+	ctx   *vrun.Ctx
+	m     *Model
+	setup *MiningSetup
+	mu    sync.Mutex
+	recs  []tmplRecord
+}
+
+func NewTemplateChecker(ctx *vrun.Ctx, m *Model, setup *MiningSetup) *TemplateChecker {
+	return &TemplateChecker{ctx: ctx, m: m, setup: setup}
+}
+
+// validate solves the proof of work of a copy of the block and runs the full
+// connect checks against the current tip.
+func (e *Env) validateSolved(msg *wire.MsgBlock, height int32) error {
+	cp := msg.Copy()
+	solve(&cp.Header, e.C.Params)
+	blk := btcutil.NewBlock(cp)
+	blk.SetHeight(height)
+	if err := blockchain.CheckProofOfWork(blk, e.C.Params.PowLimit); err != nil {
+		return err
+	}
+	return e.Chain.CheckConnectBlockTemplate(blk)
+}
+
+func b2s(b bool) string { return tlaBool(b) }
+
+func seqInts(x []int64) string {
+	p := make([]string, len(x))
+	for i, v := range x {
+		p[i] = fmt.Sprint(v)
+	}
+	return "<<" + strings.Join(p, ", ") + ">>"
+}
+
+// Observe one template and render it as a TLA+ record.
+func (tc *TemplateChecker) observe(e *Env, pol int) (string, map[string]any) {
+	c := e.C
+	g := e.NewGenerator(tc.setup.Policies[pol].real())
+	t, err := g.NewBlockTemplate(nil)
+	if err != nil {
+		return fmt.Sprintf("[pol |-> %d, failed |-> TRUE]", pol+1), map[string]any{"policy": pol + 1, "error": err.Error()}
+	}
+	blk := btcutil.NewBlock(t.Block)
+	var sel []int64
+	foreign := false
+	for _, tx := range t.Block.Transactions[1:] {
+		id, ok := c.ByHash[tx.TxHash()]
+		if !ok {
+			foreign = true
+			id = 0
+		}
+		sel = append(sel, int64(id))
+	}
+	cbv := int64(0)
+	for _, o := range t.Block.Transactions[0].TxOut {
+		cbv += o.Value
+	}
+	sigtotal := int64(0)
+	for _, s := range t.SigOpCosts {
+		sigtotal += s
+	}
+	weight := blockchain.GetBlockWeight(blk)
+	// witness commitment: recomputed independently from the block's transactions
+	commitOK := true
+	hasCommit := t.WitnessCommitment != nil
+	if hasCommit {
+		if err := blockchain.ValidateWitnessCommitment(blk); err != nil {
+			commitOK = false
+		}
+		root := blockchain.CalcMerkleRoot(blk.Transactions(), true)
+		var pre [64]byte
+		copy(pre[:32], root[:])
+		if !bytes.Equal(chainhash.DoubleHashB(pre[:]), t.WitnessCommitment) {
+			commitOK = false
+		}
+		if got, ok := blockchain.ExtractWitnessCommitment(blk.Transactions()[0]); !ok || !bytes.Equal(got, t.WitnessCommitment) {
+			commitOK = false
+		}
+	} else if _, ok := blockchain.ExtractWitnessCommitment(blk.Transactions()[0]); ok {
+		hasCommit, commitOK = true, false // a commitment output the template does not report
+	}
+	v1 := e.validateSolved(t.Block, t.Height)
+	// UpdateBlockTime / UpdateExtraNonce on copies
+	m2 := t.Block.Copy()
+	var v2, v3 error
+	if err := g.UpdateBlockTime(m2); err != nil {
+		v2 = err
+	} else {
+		v2 = e.validateSolved(m2, t.Height)
+	}
+	m3 := t.Block.Copy()
+	if err := g.UpdateExtraNonce(m3, t.Height, 0x1234567); err != nil {
+		v3 = err
+	} else {
+		v3 = e.validateSolved(m3, t.Height)
+		if bytes.Equal(m3.Transactions[0].TxIn[0].SignatureScript, t.Block.Transactions[0].TxIn[0].SignatureScript) {
+			v3 = fmt.Errorf("UpdateExtraNonce did not change the coinbase script")
+		}
+	}
+	desc := map[string]any{"policy": pol + 1, "selected": sel, "fees": t.Fees, "sigops": t.SigOpCosts, "coinbase_value": cbv, "weight": weight,
+		"has_commitment": hasCommit, "commitment_ok": commitOK, "foreign_tx": foreign}
+	for k, err := range map[string]error{"valid": v1, "valid_after_time": v2, "valid_after_nonce": v3} {
+		if err != nil {
+			desc[k] = err.Error()
+		}
+	}
+	rec := fmt.Sprintf("[pol |-> %d, failed |-> FALSE, sel |-> %s, fees |-> %s, sigops |-> %s, cbextra |-> %d, weight |-> %d, sigtotal |-> %d, hascommit |-> %s, commitok |-> %s, valid |-> %s, validtime |-> %s, validnonce |-> %s, height |-> %d]",
+		pol+1, seqInts(sel), seqInts(t.Fees), seqInts(t.SigOpCosts), cbv-blockchain.CalcBlockSubsidy(t.Height, c.Params), weight, sigtotal, b2s(hasCommit), b2s(commitOK), b2s(v1 == nil), b2s(v2 == nil), b2s(v3 == nil), t.Height)
+	return rec, desc
+}
+
+// OnState is called by the walker the first time a spec state is reached with
+// a matching real node.
+func (tc *TemplateChecker) OnState(e *Env, n *tlc.Node, s *SpecState) error {
+	for pol := range tc.setup.Policies {
+		rec, desc := tc.observe(e, pol)
+		if f, _ := desc["foreign_tx"].(bool); f {
+			tc.ctx.Violation("template:foreign-tx", fmt.Sprintf("universe %s: template contains a transaction that is not pooled: %v", tc.m.U.Name, desc),
+				map[string]any{"universe": tc.m.U, "spec_state": n.State.Go(), "path": pathLabels(tc.m.G, n)})
+			continue
+		}
+		tc.mu.Lock()
+		tc.recs = append(tc.recs, tmplRecord{node: n, pol: pol, tla: rec, desc: desc})
+		tc.mu.Unlock()
+		tc.ctx.AddEval(1)
+	}
+	return nil
+}
+
+// FullValidation submits the solved template of the current state to the node
+// itself (used at the end of a path: the environment is discarded afterwards).
+func (tc *TemplateChecker) FullValidation(e *Env) (string, error) {
+	g := e.NewGenerator(tc.setup.Policies[0].real())
+	t, err := g.NewBlockTemplate(nil)
+	if err != nil {
+		return "", nil // judged by the record of this state
+	}
+	cp := t.Block.Copy()
+	solve(&cp.Header, e.C.Params)
+	best := e.Chain.BestSnapshot()
+	if err := e.Submit(btcutil.NewBlock(cp)); err != nil {
+		return fmt.Sprintf("ProcessBlock rejected the solved template: %v", err), nil
+	}
+	after := e.Chain.BestSnapshot()
+	if after.Height != best.Height+1 || after.Hash != cp.BlockHash() {
+		return "the solved template did not become the new tip", nil
+	}
+	return "", nil
+}
+
+// Finish validates all records of the universe against Mining.tla.
+func (tc *TemplateChecker) Finish() error {
+	tc.mu.Lock()
+	recs := tc.recs
+	tc.mu.Unlock()
+	if len(recs) == 0 {
+		return nil
+	}
+	u, c := tc.m.U, tc.m.C
+	mod := "TM_" + u.Name
+	defs, cfgExtra := tc.setup.cfg(c)
+	var sb strings.Builder
+	sb.WriteString(defs)
+	sb.WriteString("Recs == <<\n")
+	for i, r := range recs {
+		st := r.node.State
+		if i > 0 {
+			sb.WriteString(",\n")
+		}
+		fmt.Fprintf(&sb, " [r |-> %s, pool |-> %s, orph |-> %s, chain |-> %s, content |-> %s, stale |-> %s]",
+			r.tla, domainSet(st["pool"]), st["orph"].String(), st["chain"].String(), st["content"].String(), st["stale"].String())
+	}
+	sb.WriteString("\n>>\n")
+	sb.WriteString("Verdicts == [i \\in 1..Len(Recs) |-> [f |-> TemplateFailures(Recs[i].r, Recs[i].pool, Recs[i].chain, Recs[i].content, Recs[i].stale),\n")
+	sb.WriteString("                                     a |-> InAlgo(Recs[i].r, Recs[i].pool, Recs[i].orph, Recs[i].chain, Recs[i].content)]]\n")
+	sb.WriteString("ASSUME PrintT(<<\"@TPL\", Verdicts>>)\nTStop == FALSE /\\ UNCHANGED vars\n")
+	tlaText, cfgText := u.Module(mod, "Mining", c, sb.String(), cfgExtra+"INIT Init\nNEXT TStop\n")
+	res, err := tlc.Run(tlc.Opts{SpecDir: tc.ctx.SpecDir("mempool"), Module: mod, CfgText: cfgText,
+		Files: map[string][]byte{mod + ".tla": []byte(tlaText)}, Workers: 1, Timeout: 10 * time.Minute, Scratch: tc.ctx.Scratch, HeapGB: 4})
+	if err != nil && (res == nil || !strings.Contains(res.Output, `"@TPL"`)) {
+		return fmt.Errorf("universe %s: template validation: %w", u.Name, err)
+	}
+	i := strings.Index(res.Output, `<< "@TPL",`)
+	if i < 0 {
+		i = strings.Index(res.Output, `<<"@TPL",`)
+	}
+	if i < 0 {
+		return fmt.Errorf("universe %s: no @TPL line in TLC output:\n%s", u.Name, tail(res.Output, 2000))
+	}
+	end := balancedTuple(res.Output[i:])
+	if end < 0 {
+		return fmt.Errorf("universe %s: unbalanced @TPL tuple", u.Name)
+	}
+	v, err := tla.ParseValue(res.Output[i : i+end])
+	if err != nil {
+		return err
+	}
+	verd := v.Seq()[1].Seq()
+	if len(verd) != len(recs) {
+		return fmt.Errorf("universe %s: %d verdicts for %d templates", u.Name, len(verd), len(recs))
+	}
+	tc.ctx.AddTraces(int64(len(recs)))
+	drift := 0
+	for k, vd := range verd {
+		r := recs[k]
+		fails := vd.F("f").Strs()
+		for _, f := range fails {
+			tc.ctx.Violation("template:"+f, fmt.Sprintf("universe %s policy %d: template generated in pool state %s violates %q: %v", u.Name, r.pol+1, domainSet(r.node.State["pool"]), f, r.desc),
+				map[string]any{"universe": u, "policy": tc.setup.Policies[r.pol], "spec_state": r.node.State.Go(), "template": r.desc, "path": pathLabels(tc.m.G, r.node)})
+		}
+		if len(fails) == 0 && !vd.F("a").Bool() {
+			drift++
+			if drift <= 3 {
+				fmt.Printf("MODEL-DRIFT property=%s universe %s policy %d: selection %v is not an outcome of the Mining.tla algorithm in pool state %s\n", tc.ctx.Prop, u.Name, r.pol+1, r.desc["selected"], domainSet(r.node.State["pool"]))
+			}
+		}
+		sel, _ := r.desc["selected"].([]int64)
+		tc.ctx.Distinct(fmt.Sprintf("%s|tpl|%d|%v", u.Name, r.pol, sel))
+	}
+	tc.ctx.AddExtra("templates", int64(len(recs)))
+	tc.ctx.AddExtra("template_model_drift", int64(drift))
+	return nil
+}
+
+func pathLabels(g *tlc.Graph, n *tlc.Node) []string {
+	var out []string
+	for _, st := range g.PathTo(n) {
+		out = append(out, st.Action)
+	}
+	return out
+}
+
+func domainSet(v tla.Value) string {
+	if v.Kind == tla.KSeq && len(v.Elems) == 0 {
+		return "{}"
+	}
+	var p []string
+	for _, k := range v.Domain() {
+		p = append(p, k.String())
+	}
+	return "{" + strings.Join(p, ", ") + "}"
+}
+
+// balancedTuple returns the length of the <<...>> tuple at the start of s.
+func balancedTuple(s string) int {
+	depth := 0
+	for j := 0; j < len(s); j++ {
+		if strings.HasPrefix(s[j:], "<<") {
+			depth++
+			j++
+		} else if strings.HasPrefix(s[j:], ">>") {
+			depth--
+			j++
+			if depth == 0 {
+				return j + 1
+			}
+		}
+	}
+	return -1
+}
 
 // RunC12 is the check for property C12.
 func RunC12(ctx *vrun.Ctx) error { return runBoth(ctx, true) }
